@@ -343,3 +343,86 @@ example :  -- non-vacuous: empty items, the (n, EOF) read form, default fuel and
   refine ⟨⟨by decide, rfl⟩, rfl, by decide, by decide⟩
 
 end BB.C09
+
+namespace BB.C09
+open BB.Validate
+
+/-- The method with every `WithTask` decoration removed. -/
+def strip : Method → Method
+  | .cloneCopy max m => .cloneCopy max (strip m)
+  | .cloneStream m => .cloneStream (strip m)
+  | .withTask m => strip m
+  | m => m
+
+theorem runErr_strip (r : Res) : ∀ m, runErr r m = runErr r (strip m) := by
+  intro m
+  induction m with
+  | cloneCopy _ m ih => simpa [runErr, strip] using ih
+  | cloneStream m ih => simpa [runErr, strip] using ih
+  | withTask m ih => simpa [runErr, strip] using ih
+  | _ => rfl
+
+theorem runSlice_strip (data : List Nat) : ∀ m, runSlice data m = runSlice data (strip m) := by
+  intro m
+  induction m with
+  | cloneCopy _ m ih => simpa [runSlice, strip] using ih
+  | cloneStream m ih => simpa [runSlice, strip] using ih
+  | withTask m ih => simpa [runSlice, strip] using ih
+  | _ => rfl
+
+theorem afterCopy_strip (o : Obs) (m : Method) : afterCopy o m = afterCopy o (strip m) := by
+  unfold afterCopy
+  cases o.res with
+  | none => rfl
+  | some r =>
+    cases r with
+    | ok => exact runSlice_strip _ m
+    | eof => exact runErr_strip _ m
+    | err e => exact runErr_strip _ m
+
+theorem runCloned_strip {σ : Type} (c : Cfg) (mk : Nat → Step σ) (s : σ) :
+    ∀ m, runCloned c mk s m = runCloned c mk s (strip m) := by
+  intro m
+  induction m with
+  | cloneCopy max m _ => simp only [runCloned, strip]; rw [afterCopy_strip]
+  | cloneStream m ih => simpa [runCloned, strip] using ih
+  | withTask m ih => simpa [runCloned, strip] using ih
+  | _ => rfl
+
+theorem runReader_strip (c : Cfg) (v : VR) : ∀ m, runReader c v m = runReader c v (strip m) := by
+  intro m
+  induction m with
+  | cloneCopy max m _ => simp only [runReader, strip]; rw [afterCopy_strip]
+  | cloneStream m _ => simp only [runReader, strip]; rw [runCloned_strip]
+  | withTask m ih => simpa [runReader, strip] using ih
+  | _ => rfl
+
+theorem runChunk_strip (c : Cfg) (v : VC) : ∀ m, runChunk c v m = runChunk c v (strip m) := by
+  intro m
+  induction m with
+  | cloneCopy max m _ => simp only [runChunk, strip]; rw [afterCopy_strip]
+  | cloneStream m _ => simp only [runChunk, strip]; rw [runCloned_strip]
+  | withTask m ih => simpa [runChunk, strip] using ih
+  | _ => rfl
+
+/-- **C09_decorate**: decorating a CAS buffer with `WithTask` (a task that succeeds) - before
+consuming it, before or after cloning it, any number of times - does not change anything the
+consumer observes: result, every piece of data handed out, the count of `ReadAt`, the verdicts.
+In particular every theorem above holds for the decorated buffer (they quantify over all methods,
+decorations included). -/
+theorem C09_decorate (c : Cfg) (ct : Ctor) (m : Method) : run c ct m = run c ct (strip m) := by
+  cases ct with
+  | slice data =>
+    simp only [run]
+    rw [runErr_strip (.err .sizeMismatch) m, runErr_strip (.err .hashMismatch) m, runSlice_strip data m]
+  | reader s => simp only [run]; rw [runReader_strip]
+  | chunks s => simp only [run]; rw [runChunk_strip]
+
+theorem C09_decorate_withTask (c : Cfg) (ct : Ctor) (m : Method) : run c ct (.withTask m) = run c ct m := by
+  rw [C09_decorate c ct (.withTask m), C09_decorate c ct m]; rfl
+
+example :  -- non-vacuous: a decorated, cloned, corrupt chunk stream still ends in a hash mismatch with the last chunk withheld
+    (run { H := fun _ => 7, size := 2, h := 8 } (.chunks ⟨[[1], [2]], .eof⟩)
+      (.withTask (.cloneStream (.withTask (.toChunkReader 0 5 10))))).pieces = [[1]] := by decide
+
+end BB.C09
